@@ -48,3 +48,100 @@ def scale_kw(kw, c):
         if k in out and out[k] is not None and not isinstance(out[k], str):
             out[k] = out[k] * c
     return out
+
+
+# ----------------------------------------------------------------------------
+# entry-point table: every public measure function, in the call forms it offers
+# ----------------------------------------------------------------------------
+def _prof(p):
+    out = {}
+    for k in ("x", "y", "y1", "y2", "mp"):
+        if hasattr(p, k):
+            out[k] = np.asarray(getattr(p, k), float).tolist()
+    return out
+
+
+def _lst(v):
+    return np.asarray(v, float).tolist()
+
+
+def entry_points():
+    """-> list of (name, min_trains, fn) with fn(sts, **kw) -> JSON-able observation.
+    `sts` is a list of SpikeTrain objects; bivariate forms use the first two."""
+    import pyspike as spk
+    E = []
+    E.append(("isi_profile(a,b)", 2, lambda s, **kw: _prof(spk.isi_profile(s[0], s[1], **kw))))
+    E.append(("isi_profile(list)", 2, lambda s, **kw: _prof(spk.isi_profile(s, **kw))))
+    E.append(("isi_profile_multi", 2, lambda s, **kw: _prof(spk.isi_profile_multi(s, **kw))))
+    E.append(("isi_distance(a,b)", 2, lambda s, **kw: float(spk.isi_distance(s[0], s[1], **kw))))
+    E.append(("isi_distance(list)", 2, lambda s, **kw: float(spk.isi_distance(s, **kw))))
+    E.append(("isi_distance_multi", 2, lambda s, **kw: float(spk.isi_distance_multi(s, **kw))))
+    E.append(("isi_distance_matrix", 2, lambda s, **kw: _lst(spk.isi_distance_matrix(s, **kw))))
+    E.append(("spike_profile(a,b)", 2, lambda s, **kw: _prof(spk.spike_profile(s[0], s[1], **kw))))
+    E.append(("spike_profile(list)", 2, lambda s, **kw: _prof(spk.spike_profile(s, **kw))))
+    E.append(("spike_profile_multi", 2, lambda s, **kw: _prof(spk.spike_profile_multi(s, **kw))))
+    E.append(("spike_distance(a,b)", 2, lambda s, **kw: float(spk.spike_distance(s[0], s[1], **kw))))
+    E.append(("spike_distance(list)", 2, lambda s, **kw: float(spk.spike_distance(s, **kw))))
+    E.append(("spike_distance_multi", 2, lambda s, **kw: float(spk.spike_distance_multi(s, **kw))))
+    E.append(("spike_distance_matrix", 2, lambda s, **kw: _lst(spk.spike_distance_matrix(s, **kw))))
+    E.append(("spike_sync_profile(a,b)", 2,
+              lambda s, **kw: _prof(spk.spike_sync_profile(s[0], s[1], **kw))))
+    E.append(("spike_sync_profile(list)", 2, lambda s, **kw: _prof(spk.spike_sync_profile(s, **kw))))
+    E.append(("spike_sync_profile_multi", 2,
+              lambda s, **kw: _prof(spk.spike_sync_profile_multi(s, **kw))))
+    E.append(("spike_sync(a,b)", 2, lambda s, **kw: float(spk.spike_sync(s[0], s[1], **kw))))
+    E.append(("spike_sync(list)", 2, lambda s, **kw: float(spk.spike_sync(s, **kw))))
+    E.append(("spike_sync_multi", 2, lambda s, **kw: float(spk.spike_sync_multi(s, **kw))))
+    E.append(("spike_sync_matrix", 2, lambda s, **kw: _lst(spk.spike_sync_matrix(s, **kw))))
+    E.append(("filter_by_spike_sync", 2,
+              lambda s, **kw: [[t.spikes.tolist(), t.t_start, t.t_end] for part in
+                               spk.filter_by_spike_sync(s, 0.4, return_removed_spikes=True, **kw)
+                               for t in part]))
+    E.append(("spike_train_order_profile(a,b)", 2,
+              lambda s, **kw: _prof(spk.spike_train_order_profile(s[0], s[1], **kw))))
+    E.append(("spike_train_order_profile(list)", 2,
+              lambda s, **kw: _prof(spk.spike_train_order_profile(s, **kw))))
+    E.append(("spike_train_order_profile_bi", 2,
+              lambda s, **kw: _prof(spk.spike_train_order_profile_bi(s[0], s[1], **kw))))
+    E.append(("spike_train_order_profile_multi", 2,
+              lambda s, **kw: _prof(spk.spike_train_order_profile_multi(s, **kw))))
+    E.append(("spike_train_order(a,b)", 2,
+              lambda s, **kw: float(spk.spike_train_order(s[0], s[1], **kw))))
+    E.append(("spike_train_order(list)", 2, lambda s, **kw: float(spk.spike_train_order(s, **kw))))
+    E.append(("spike_train_order_bi", 2,
+              lambda s, **kw: float(spk.spike_train_order_bi(s[0], s[1], **kw))))
+    E.append(("spike_train_order_multi", 2,
+              lambda s, **kw: float(spk.spike_train_order_multi(s, **kw))))
+    E.append(("spike_directionality", 2,
+              lambda s, **kw: float(spk.spike_directionality(s[0], s[1], **kw))))
+    E.append(("spike_directionality_values(a,b)", 2,
+              lambda s, **kw: [_lst(a) for a in spk.spike_directionality_values(s[0], s[1], **kw)]))
+    E.append(("spike_directionality_values(list)", 2,
+              lambda s, **kw: [_lst(a) for a in spk.spike_directionality_values(s, **kw)]))
+    E.append(("spike_directionality_matrix", 2,
+              lambda s, **kw: _lst(spk.spike_directionality_matrix(s, **kw))))
+    return E
+
+
+def accepts(name, kw):
+    """does entry point `name` take the keywords in kw?"""
+    isi_spike = name.startswith("isi_") or name.startswith("spike_profile") or \
+        name.startswith("spike_distance")
+    if "max_tau" in kw and isi_spike:
+        return False
+    if "RI" in kw and not (name.startswith("spike_profile") or name.startswith("spike_distance")):
+        return False
+    return True
+
+
+def obs_close(a, b, tol=1e-10):
+    """structural comparison of two observations"""
+    if isinstance(a, dict) and isinstance(b, dict):
+        return set(a) == set(b) and all(obs_close(a[k], b[k], tol) for k in a)
+    if isinstance(a, (list, tuple)) and isinstance(b, (list, tuple)):
+        return len(a) == len(b) and all(obs_close(p, q, tol) for p, q in zip(a, b))
+    if isinstance(a, (int, float)) and isinstance(b, (int, float)):
+        if a != a or b != b:
+            return a != a and b != b
+        return abs(a - b) <= tol
+    return a == b
